@@ -178,6 +178,103 @@ def odd_keys_pass(ctx, rec):
             ctx.violation('regenerated', case, 'no generation/compile/wrap event', [list(map(str, e))[:3] for e in new[:6]], key='regenerated:after-register')
 
 
+def sequential_threads_pass(ctx, rec):
+    """strictly sequential calls issued from different threads (a worker is started and joined before the next call): a
+    pattern generated by a call on one thread is reused by a later call on any other thread - operators, composite
+    operators and registered functions, with and without a wrapper"""
+    import threading
+    from kingdon import MultiVector
+    rng = ctx.rng
+    def on_worker(thunk):
+        box = {}
+        def body():
+            try:
+                box['r'] = thunk()
+            except Exception as ex:
+                box['e'] = ex
+        th = threading.Thread(target=body); th.start(); th.join()
+        return box
+    for sig, use_wrapper in (([1, 1, 1], False), ([0, 1, 1], True)):
+        alg = make_algebra(sig, **({'wrapper': rec.wrapper} if use_wrapper else {}))
+        def f_reg_body(a, b): return a * b + (a | b)
+        def f_sym_body(a, b): return (a ^ b) - a
+        f_reg = alg.register(f_reg_body)
+        f_sym = alg.register(f_sym_body, symbolic=True)
+        calls = [('gp', lambda x, y: x * y), ('sw', lambda x, y: x >> y), ('add', lambda x, y: x + y), ('inv', lambda x, y: x.inv()),
+                 ('normsq', lambda x, y: y.normsq()), ('registered', lambda x, y: f_reg(x, y)), ('registered-symbolic', lambda x, y: f_sym(x, y))]
+        for first_on in ('main', 'worker'):
+            for name, fn in calls:
+                kx = tuple(rng.sample(range(1, 8), 3)); ky = tuple(rng.sample(range(0, 8), 2))
+                mk_ = lambda: (MultiVector.fromkeysvalues(alg, kx, [Fraction(rng.randint(1, 9)) for _ in kx]),
+                               MultiVector.fromkeysvalues(alg, ky, [Fraction(rng.randint(1, 9)) for _ in ky]))
+                x, y = mk_()
+                if first_on == 'main':
+                    try:
+                        fn(x, y)
+                        box = {}
+                    except Exception as ex:
+                        box = {'e': ex}
+                else:
+                    box = on_worker(lambda: fn(x, y))
+                if 'e' in box:
+                    ctx.count('other-thread:first-call-raises:' + type(box['e']).__name__)
+                    continue        # a generation that raised is retried by the next call: nothing is cached yet
+                for later_on in ('worker', 'main', 'worker'):
+                    x2, y2 = mk_()
+                    before = len(rec.events)
+                    try:
+                        if later_on == 'main':
+                            fn(x2, y2)
+                        else:
+                            on_worker(lambda: fn(x2, y2))
+                    except Exception:
+                        pass
+                    new = rec.events[before:]
+                    case = {'sig': sig, 'wrapper': use_wrapper, 'call': name, 'kx': list(kx), 'ky': list(ky), 'first_call_on': first_on,
+                            'later_call_on': later_on + ' thread (sequential: started and joined)'}
+                    ctx.case(case, nontrivial=True, tag='repeat:other-thread')
+                    if new:
+                        ctx.violation('regenerated', case, 'no generation/compile/wrap event for a cached pattern',
+                                      [list(map(str, e)) for e in new[:6]], key=f'regenerated:other-thread:{new[0][0]}')
+                        break
+
+
+def many_patterns_pass(ctx, rec):
+    """a pattern is still served from the cache after the same operator has seen many other patterns in between (no bound on
+    the number of cached patterns): d = 3 with every pattern it has, d = 7 (lazy tables) with more than a hundred"""
+    from kingdon import MultiVector
+    rng = ctx.rng
+    for sig, n_between in (([1, 1, 1], 120), ([1, 1, 1, -1, 0, 1, 1], 150 if ctx.quick else 700)):
+        alg = make_algebra(sig)
+        d = alg.d
+        probes = {'neg': ((6,), None), 'add': ((6,), (12 % 2 ** d,)), 'gp': ((6,), (12 % 2 ** d,)), 'reverse': ((3, 5), None)}
+        def call(op, kx, ky):
+            x = MultiVector.fromkeysvalues(alg, tuple(kx), [Fraction(rng.randint(1, 9)) for _ in kx])
+            if ky is None:
+                return UN[op](x)
+            return BIN[op](x, MultiVector.fromkeysvalues(alg, tuple(ky), [Fraction(rng.randint(1, 9)) for _ in ky]))
+        for op, (kx, ky) in probes.items():
+            call(op, kx, ky)
+        seen = set()
+        for i in range(n_between):
+            a = tuple(sorted(rng.sample(range(2 ** d), rng.choice((1, 1, 2)))))
+            b = (rng.randrange(2 ** d),)
+            for op, (kx, ky) in probes.items():
+                if (a, b) != (kx, ky) and a != kx:
+                    call(op, a, None if ky is None else b)
+                    seen.add((op, a, b if ky is not None else None))
+        for op, (kx, ky) in probes.items():
+            before = len(rec.events)
+            call(op, kx, ky)
+            new = rec.events[before:]
+            case = {'sig': sig, 'op': op, 'kx': list(kx), 'ky': list(ky) if ky else None,
+                    'other_patterns_of_this_operator_in_between': len([1 for o, _, _ in seen if o == op])}
+            ctx.case(case, nontrivial=True, tag='repeat:after-many-patterns')
+            if new:
+                ctx.violation('regenerated', case, 'no generation/compile/wrap event for a cached pattern',
+                              [list(map(str, e)) for e in new[:6]], key=f'regenerated:after-many-patterns:{new[0][0]}')
+
+
 def lambda_free_square():
     def square_fn(x):
         return x * x
@@ -288,6 +385,8 @@ def run(ctx):
             ctx.count('histories')
         registered_pass(ctx, rec)
         odd_keys_pass(ctx, rec)
+        sequential_threads_pass(ctx, rec)
+        many_patterns_pass(ctx, rec)
     finally:
         rec.uninstall()
     out = ctx.drive(lines)
